@@ -13,28 +13,33 @@ def _load(path, name):
     return mod
 
 
-def model_rowcols(queries):
-    """[(ty, lit, seed, lgk)] -> list of row_col codes (int) or None (ignored input).
-    The two MurmurHash3 words come from the Lean transcription (dsmodel_cpc hash); row/col are recomputed HERE
-    from the words, independently of the Lean `rowCol`."""
-    lines = ["hash %s %s %s %s" % q for q in queries]
+def model_hashes(queries):
+    """[(ty, lit, seed)] -> list of (h1, h2) or None (ignored input): the two MurmurHash3 words from the Lean transcription."""
+    lines = ["hash %s %s %s 4" % q for q in queries]
     out, oc, err = core.run_model("dsmodel_cpc", "hash", lines, timeout=300)
     if len(out) != len(queries):
         raise RuntimeError("hash model failed: %s %s" % (oc, err[-300:]))
     res = []
-    for (ty, lit, seed, lgk), l in zip(queries, out):
+    for l in out:
         w = l.split()
         if len(w) >= 3 and w[0] == "H" and w[1] != "ignored":
-            h1, h2 = int(w[1], 16), int(w[2], 16)
-            col = min(64 - h2.bit_length(), 63)
-            row = h1 & ((1 << int(lgk)) - 1)
-            rc = (row << 6) | col
-            if rc == 0xFFFFFFFF:
-                rc ^= 1 << 6
-            res.append(rc)
+            res.append((int(w[1], 16), int(w[2], 16)))
         else:
             res.append(None)
     return res
+
+
+def rowcol(hh, lgk):
+    """row/col recomputed HERE from the two hash words, independently of the Lean `rowCol`"""
+    if hh is None:
+        return None
+    h1, h2 = hh
+    col = min(64 - h2.bit_length(), 63)
+    row = h1 & ((1 << lgk) - 1)
+    rc = (row << 6) | col
+    if rc == 0xFFFFFFFF:
+        rc ^= 1 << 6
+    return rc
 
 
 def parse_S(line):
@@ -162,106 +167,213 @@ class C05(Spec):
                 step = max(1, n // 6)
                 h.append("updr 0 %d %d" % (base + n, step)); n += step
             hs.append(h)
+        hs += self._union_histories(rng, tier)
         # argument errors
         hs.append(["new 0 3 9001", "new 0 27 9001", "new 0 4 9001", "upd 0 str -", "upd 0 raw -", "upd 0 f64 8000000000000000",
                    "upd 0 f64 0000000000000000", "upd 0 f64 7ff8000000000000", "upd 0 f64 fff8000000000001", "upd 0 f32 7fc00000",
                    "upd 0 i8 -1", "upd 0 u8 255", "upd 0 i64 -1", "upd 0 u64 18446744073709551615", "upd 0 u32 4294967295", "upd 0 i32 -1"])
         return hs
 
+    def _union_histories(self, rng, tier):
+        """2-4 sketches of unequal lg_k and every flavor, unioned in all orders (<= 4 inputs) into unions of lg_k below / between /
+        above the inputs'; results are updated further and fed into other unions."""
+        import itertools
+        quick = tier == "quick"
+        hs = []
+        fills = [0.0, 0.03, 0.08, 0.2, 0.45, 0.7, 2.0, 3.6, 4.6]   # C/K targets: empty, sparse, hybrid, pinned, sliding
+        for i in range(30 if quick else 200):
+            h = []
+            nsk = rng.choice([2, 3, 3, 4])
+            lgmax = 8 if quick else rng.choice([8, 9, 10])
+            base = rng.randrange(1 << 40)
+            overlap = rng.random() < 0.5
+            seed = 9001 if rng.random() < 0.8 else rng.randrange(1, 1 << 64)
+            for sid in range(nsk):
+                lgk = rng.randrange(4, lgmax + 1)
+                k = 1 << lgk
+                h.append("new %d %d %d" % (sid, lgk, seed))
+                ratio = rng.choice(fills)
+                n = int(k * ratio) if ratio <= 1.0 else int(k * 2 ** (ratio - 0.9))
+                if i % 7 == 0 and sid == 0:
+                    n = rng.choice([0, 1, 2, 3])
+                if n:
+                    st = base if overlap else base + sid * (1 << 20)
+                    st += rng.randrange(0, max(1, n // 2)) if overlap else 0
+                    h.append("updr %d %d %d" % (sid, st, n))
+            perms = list(itertools.permutations(range(nsk)))
+            if quick and len(perms) > 6:
+                perms = rng.sample(perms, 6)
+            lg0s = [rng.randrange(4, lgmax + 2)] if rng.random() < 0.7 else [4, lgmax]
+            uid = 10
+            rid = 100
+            for lg0 in lg0s:
+                for pm in perms:
+                    h.append("unew %d %d %d" % (uid, lg0, seed))
+                    for sid in pm:
+                        h.append("uupd %d %d%s" % (uid, sid, " rvalue" if rng.random() < 0.3 else ""))
+                    h.append("ures %d %d" % (uid, rid))
+                    uid += 1; rid += 1
+            # keep using a result: more updates, union of results, result into a fresh union together with an input
+            r0 = 100
+            h.append("updr %d %d %d" % (r0, base + 7, rng.choice([1, 5, 50, 400])))
+            h.append("unew %d %d %d" % (uid, rng.randrange(4, lgmax + 1), seed))
+            h.append("uupd %d %d" % (uid, r0))
+            h.append("uupd %d %d" % (uid, 101))
+            h.append("uupd %d %d" % (uid, 0))
+            h.append("copy %d %d" % (uid, uid + 1))
+            h.append("uupd %d %d" % (uid + 1, 1))
+            h.append("ures %d %d" % (uid, rid))
+            h.append("ures %d %d" % (uid + 1, rid + 1))
+            h.append("updr %d %d 30" % (rid, base))
+            if rng.random() < 0.2:
+                h.append("new 50 5 %d" % (seed + 1))
+                h.append("uupd %d 50" % uid)          # incompatible seed (most likely a different seed hash)
+            hs.append(h)
+        return hs
+
     # ------------------------------------------------------------------ oracle: the property statement on one implementation trace
     def oracle(self, hist, impl_out):
         bad = []
-        cfg = {}
+        seeds = {}
         queries = []
+        qpos = []          # per history line: index of its first hash query (or None)
         for l in hist:
             w = l.split()
-            if w[0] == "new":
-                try:
-                    cfg[int(w[1])] = (int(w[2]), int(w[3]))
-                except ValueError:
-                    pass
-            elif w[0] == "copy" and int(w[1]) in cfg:
-                cfg[int(w[2])] = cfg[int(w[1])]
-            elif w[0] == "upd" and int(w[1]) in cfg:
-                lgk, seed = cfg[int(w[1])]
-                queries.append((w[2], w[3], seed, lgk))
-            elif w[0] == "updr" and int(w[1]) in cfg:
-                lgk, seed = cfg[int(w[1])]
-                st, n = int(w[2]), int(w[3])
-                for j in range(n):
-                    queries.append(("u64", str((st + j) & MASK64), seed, lgk))
+            qpos.append(None)
+            try:
+                if w[0] in ("new", "unew"):
+                    seeds[int(w[1])] = int(w[3])
+                elif w[0] in ("copy", "ures") and int(w[1]) in seeds:
+                    seeds[int(w[2])] = seeds[int(w[1])]
+                elif w[0] == "upd" and int(w[1]) in seeds:
+                    qpos[-1] = len(queries)
+                    queries.append((w[2], w[3], seeds[int(w[1])]))
+                elif w[0] == "updr" and int(w[1]) in seeds:
+                    qpos[-1] = len(queries)
+                    st, n = int(w[2]), int(w[3])
+                    for j in range(n):
+                        queries.append(("u64", str((st + j) & MASK64), seeds[int(w[1])]))
+            except (ValueError, IndexError):
+                pass
         try:
-            rcs = model_rowcols(queries) if queries else []
+            hh = model_hashes(queries) if queries else []
         except Exception as e:
             return [("oracle-hash-failed", str(e)[:200], 0)]
-        qi = 0
-        cfg = {}
-        sets = {}
+        cfg = {}          # sketch id -> (lgk, seed)
+        sets = {}         # sketch id -> set of row_col codes
+        merged = {}       # sketch id -> reports ICON (result of a union with at least one coupon)
+        un = {}           # union id -> dict(lgk, seed, set, lg0, inputs)
+        icon = {}         # (lgk, C) -> (est, bounds) seen on merged sketches
+        orders = {}       # (lg0, multiset of inputs) -> final observation
         for i, l in enumerate(hist):
             if i >= len(impl_out):
                 break
             w = l.split()
             op = w[0]
             o = parse_S(impl_out[i])
-            tgt = None
-            if op == "new":
+            thrown = impl_out[i].strip() == "throw"
+            tgt = None        # (lgk, set, merged?) to check the observation against
+            if op in ("new", "unew"):
                 lgk = int(w[2])
                 if lgk < 4 or lgk > 26:
-                    if impl_out[i].strip() != "throw":
+                    if not thrown:
                         bad.append(("bad-lgk-accepted", impl_out[i][:80], i))
                     continue
+                if thrown:
+                    bad.append(("valid-lgk-rejected", l, i))
+                    continue
                 sid = int(w[1])
-                cfg[sid] = (lgk, int(w[3]))
-                sets[sid] = set()
-                tgt = sid
+                if op == "new":
+                    cfg[sid] = (lgk, int(w[3])); sets[sid] = set(); merged[sid] = False; un.pop(sid, None)
+                    tgt = (lgk, sets[sid], False)
+                else:
+                    un[sid] = dict(lgk=lgk, seed=int(w[3]), set=set(), lg0=lgk, inputs=[]); cfg.pop(sid, None)
+                    tgt = (lgk, set(), False)
             elif op == "upd":
                 sid = int(w[1])
-                if sid in cfg:
-                    rc = rcs[qi]; qi += 1
+                if sid in cfg and qpos[i] is not None:
+                    rc = rowcol(hh[qpos[i]], cfg[sid][0])
                     if rc is not None:
                         sets[sid].add(rc)
-                    tgt = sid
+                    tgt = (cfg[sid][0], sets[sid], merged[sid])
             elif op == "updr":
                 sid = int(w[1])
-                if sid in cfg:
-                    n = int(w[3])
-                    for rc in rcs[qi:qi + n]:
+                n = int(w[3])
+                if sid in cfg and qpos[i] is not None:
+                    for x in hh[qpos[i]:qpos[i] + n]:
+                        rc = rowcol(x, cfg[sid][0])
                         if rc is not None:
                             sets[sid].add(rc)
-                    qi += n
-                    tgt = sid
+                    tgt = (cfg[sid][0], sets[sid], merged[sid])
             elif op == "copy":
                 src, dst = int(w[1]), int(w[2])
                 if src in cfg:
-                    cfg[dst] = cfg[src]
-                    sets[dst] = set(sets[src])
-                    tgt = dst
+                    cfg[dst] = cfg[src]; sets[dst] = set(sets[src]); merged[dst] = merged[src]; un.pop(dst, None)
+                    tgt = (cfg[dst][0], sets[dst], merged[dst])
+                elif src in un:
+                    un[dst] = dict(un[src], set=set(un[src]["set"]), inputs=list(un[src]["inputs"])); cfg.pop(dst, None)
+                    tgt = (un[dst]["lgk"], un[dst]["set"], len(un[dst]["set"]) > 0)
+            elif op == "uupd":
+                uid, sid = int(w[1]), int(w[2])
+                if uid in un and sid in cfg:
+                    u = un[uid]
+                    if thrown:
+                        if u["seed"] == cfg[sid][1]:
+                            bad.append(("union-update-threw", l, i))
+                        u["inputs"].append(None)
+                        continue
+                    slgk, sset = cfg[sid][0], sets[sid]
+                    if sset:
+                        L = min(u["lgk"], slgk)
+                        u["set"] = fold_set(u["set"], u["lgk"], L) | fold_set(sset, slgk, L)
+                        u["lgk"] = L
+                    u["inputs"].append((slgk, frozenset(sset)))
+                    tgt = (u["lgk"], u["set"], len(u["set"]) > 0)
+            elif op == "ures":
+                uid, rid = int(w[1]), int(w[2])
+                if uid in un:
+                    u = un[uid]
+                    cfg[rid] = (u["lgk"], u["seed"]); sets[rid] = set(u["set"]); merged[rid] = len(u["set"]) > 0; un.pop(rid, None)
+                    tgt = (u["lgk"], sets[rid], merged[rid])
+                    if None not in u["inputs"]:
+                        key = (u["lg0"], tuple(sorted((a, tuple(sorted(b))) for a, b in u["inputs"])))
+                        prev = orders.get(key)
+                        if prev is None:
+                            orders[key] = core.norm(impl_out[i])
+                        elif prev != core.norm(impl_out[i]):
+                            bad.append(("union-order-dependent", "same inputs, other order: %s vs %s" % (prev[:60], core.norm(impl_out[i])[:60]), i))
             if tgt is None:
                 continue
             if o is None:
                 bad.append(("bad-observation", impl_out[i][:80], i))
                 continue
-            lgk = cfg[tgt][0]
-            want = len(sets[tgt])
+            lgk, st, mg = tgt
+            want = len(st)
+            kind = "union-" if op in ("uupd", "ures", "unew") or (op == "copy" and int(w[2]) in un) else ""
             if o["lgk"] != lgk:
-                bad.append(("lgk-changed", "lg_k=%d expected %d" % (o["lgk"], lgk), i))
+                bad.append((kind + "lgk-wrong", "lg_k=%d expected %d" % (o["lgk"], lgk), i))
             if o["C"] != want:
-                bad.append(("coupon-count-not-distinct-rowcols", "C=%d distinct (row,col)=%d lg_k=%d flavor=%d offset=%d" %
+                bad.append((kind + "coupon-count-not-distinct-rowcols", "C=%d distinct (row,col)=%d lg_k=%d flavor=%d offset=%d" %
                             (o["C"], want, lgk, flavor(lgk, want), offset_of(lgk, want)), i))
             if not o["valid"]:
-                bad.append(("validate-false", "C=%d lg_k=%d" % (o["C"], lgk), i))
+                bad.append((kind + "validate-false", "C=%d lg_k=%d" % (o["C"], lgk), i))
             if o["empty"] != (want == 0):
-                bad.append(("is-empty-wrong", impl_out[i][:60], i))
+                bad.append((kind + "is-empty-wrong", impl_out[i][:60], i))
+            if mg:
+                val = (o["est"], tuple(o["bounds"]))
+                prev = icon.setdefault((o["lgk"], o["C"]), val)
+                if prev != val:
+                    bad.append(("merged-estimate-not-a-function-of-lgk-C", "lg_k=%d C=%d: %s vs %s" % (o["lgk"], o["C"], prev[0], val[0]), i))
         return bad
 
     def nontrivial_key(self, hist, impl_out):
         last = {}
         for l, o in zip(hist, impl_out):
             w = l.split()
-            if w[0] in ("new", "upd", "updr"):
+            if w[0] in ("new", "upd", "updr", "ures"):
                 d = parse_S(o)
                 if d:
-                    last[int(w[1])] = d
+                    last[int(w[2]) if w[0] == "ures" else int(w[1])] = d
         sig = tuple(sorted((sid, d["lgk"], d["C"], flavor(d["lgk"], d["C"]), offset_of(d["lgk"], d["C"])) for sid, d in last.items()))
         if not any(x[3] >= 2 for x in sig):
             return None
